@@ -113,8 +113,12 @@ def module_cases(ctx, n):
             rows = sorted(rng.sample(range(ncomp), rng.randint(1, ncomp)))
             cell.select(nodes=rows).insert(ch) if hasattr(cell, "select") else None
             inserted.append((cls, ch, rows))
-        # heterogeneous voltages and parameters per compartment
+        # heterogeneous voltages and parameters per compartment; every third module has plateaus of
+        # EQUAL voltage (the default situation) while the gate-relevant parameters still differ
         vs = [sample_v(rng, {}) for _ in range(ncomp)]
+        if i % 3 == 0:
+            plateau = [rng.choice([-70.0, -55.0, vs[0]]) for _ in range(2)]
+            vs = [plateau[r % 2] if rng.random() < 0.8 else vs[r] for r in range(ncomp)]
         for r in range(ncomp):
             cell.select(nodes=[r]).set("v", vs[r])
         for cls, ch, rows in inserted:
@@ -186,7 +190,7 @@ def run(ctx):
         v.setdefault("finding_class", None)
     return {"evaluations": e1 + e2, "distinct_nontrivial": d1 + d2,
             "rule": "scalar: (channel, renamed?, v incl. singular voltages +-1ulp, dt, parameters) with a gating state, distinct by (channel, v, dt); "
-                    "module: random cells with partial insertion of several (possibly renamed) channels and per-compartment v/vt/vx/taumax, non-trivial = >1 channel and a partial insertion",
+                    "module: random cells with partial insertion of several (possibly renamed) channels and per-compartment v/vt/vx/taumax (incl. plateaus of equal voltage with differing parameters), non-trivial = >1 channel and a partial insertion",
             "samples": s1 + s2, "violations": viol[:20],
             "scalar_evaluations": e1, "module_evaluations": e2}
 
